@@ -703,12 +703,18 @@ func (g *gctx) genIterStmt(d int, indent string) *gnode {
 			// the state advances before the guard, and the guard becomes true again after a stop
 			fmt.Sprintf("recur(i + 1)\n%s  yield i if i %% 3 != 2\n", indent),
 			fmt.Sprintf("recur(i + step)\n%s  yield t(i) if (i %% 4 != 1) && (i < %d)\n", indent, lim+6),
-		}[g.r.Intn(7)]
+			// conditions that are ints, not bools: any non-zero int (negative ones too) lets the yield through
+			fmt.Sprintf("yield i if i - %d\n%s  recur(i + 1)\n", lim, indent),
+			fmt.Sprintf("recur(i + step)\n%s  yield i if %d - i\n", indent, lim),
+		}[g.r.Intn(9)]
 		switch g.r.Intn(8) {
 		case 0:
 			// the literal closes over the scope of a function call: `new` is called from scopes that do not enclose it
 			g.use("iterator-factory")
-			return gn(indent, fmt.Sprintf("mkgen := {|lim, scale| <{|i, step: 1|\n%s  yield i * scale if i < lim\n%s  recur(i + step)\n%s}>}\n%sgen := mkgen(%d, %d)\n", indent, indent, indent, indent, lim, 1+g.r.Intn(3)))
+			// (the literal is evaluated twice with different values: the defaults of its keyword parameters are those of
+			// the evaluation that made the iterator)
+			return gn(indent, fmt.Sprintf("mkgen := {|lim, scale| <{|i, step: scale|\n%s  yield i * scale if i < lim\n%s  recur(i + step)\n%s}>}\n%sgenB := mkgen(9, 3)\n%sgen := mkgen(%d, %d)\n%sgenB.new(0)@{|x| x}.p\n",
+				indent, indent, indent, indent, indent, lim, 1+g.r.Intn(2), indent))
 		case 1:
 			// an iterator made and stepped inside the body of another one (each has its own recur)
 			g.use("iterator-nested")
